@@ -1,6 +1,8 @@
 /- Driver ops for Sudoku.  Ops: sudoku.step, sudoku.state, sudoku.judge, sudoku.instance -/
 import JumanjiModel.Bridge.Json
 import JumanjiModel.Env.Sudoku.Model
+import JumanjiModel.Env.Sudoku.Bounds
+import JumanjiModel.Bridge.PuzzleBounds
 open Lean Jb
 
 namespace Jb.Sudoku
@@ -67,7 +69,12 @@ def opInstance : Op := fun j => do
               ("mask_is_legal_table", jBool (decide (CachedOK s))),
               ("has_empty_cell", jBool (emptyCells s.board > 0))])
 
+/-- C01 bounds op: {"cfg": {}} → the proved interval of every observation leaf -/
+def opBounds : Op := fun _ => do
+  pure (jBoundsTable obsBounds)
+
 def ops : List (String × Op) :=
   [("sudoku.step", opStep), ("sudoku.state", opState), ("sudoku.judge", opJudge),
-   ("sudoku.instance", opInstance)]
+   ("sudoku.instance", opInstance),
+   ("sudoku.bounds", opBounds)]
 end Jb.Sudoku
